@@ -39,6 +39,9 @@ Exists(x, p, i) ==
   ELSE IF x.k = "obj"  THEN (IF HasKey(x, p[i]) THEN Exists(Get(x, p[i]), p, i + 1) ELSE FALSE)
   ELSE IF x.k = "list" THEN (IF IdxOf(p[i]) \in 1..Len(x.c) THEN Exists(x.c[IdxOf(p[i])], p, i + 1) ELSE FALSE)
   ELSE FALSE
+\* "the file replaces the value at the path" (multipart request spec: the map lists the object paths of the file
+\* in operations; `null` is only the customary placeholder): Put replaces whatever value stands at the path --
+\* null, "", 0, false, {} , [] or anything else -- and touches nothing else.
 RECURSIVE Put(_, _, _, _)
 Put(x, p, i, v) ==
   IF i > Len(p) THEN v
@@ -70,13 +73,14 @@ Causes(c) ==
   (IF HasPart(c.body, "map") /\ c.map.kind = "broken" THEN {"bad-map"} ELSE {}) \cup
   (IF MapUsable(c) /\ \E e \in 1..Len(c.map.entries) : ~HasFile(c.body, c.map.entries[e].name) THEN {"missing-file"} ELSE {}) \cup
   (IF MapUsable(c) /\ c.opts.maxSize > 0 /\ \E i \in MappedParts(c) : c.body[i].size > c.opts.maxSize THEN {"too-large"} ELSE {}) \cup
-  (IF MapUsable(c) /\ c.opts.maxFiles > 0 /\ Cardinality(MappedParts(c)) > c.opts.maxFiles THEN {"too-many"} ELSE {})
+  \* "maximum number of files": every file part received is a file of the request, whether or not the map
+  \* mentions it and wherever it stands in the body (the limit bounds what the server has to buffer; the map
+  \* may arrive after the files, so a reader cannot know which parts are mapped when it has to stop reading)
+  (IF c.opts.maxFiles > 0 /\ Cardinality(FileParts(c.body)) > c.opts.maxFiles THEN {"too-many"} ELSE {})
 \* situations the property text does not decide (rejecting and accepting are both allowed):
-\* a file that no map entry mentions exceeds a limit or pushes the count over it; a map path that
-\* does not exist in operations
+\* a file that no map entry mentions exceeds the size limit; a map path that does not exist in operations
 Optional(c) ==
   (IF c.opts.maxSize > 0 /\ \E i \in FileParts(c.body) \ MappedParts(c) : c.body[i].size > c.opts.maxSize THEN {"unmapped-too-large"} ELSE {}) \cup
-  (IF c.opts.maxFiles > 0 /\ Cardinality(FileParts(c.body)) > c.opts.maxFiles THEN {"too-many-with-unmapped"} ELSE {}) \cup
   (IF MapUsable(c) /\ HasPart(c.body, "ops") /\ \E e \in 1..Len(c.map.entries) : \E k \in 1..Len(c.map.entries[e].paths) :
         ~PathOk(c.ops, c.map.entries[e].paths[k]) THEN {"bad-path"} ELSE {})
 
